@@ -153,17 +153,29 @@ namespace vh
                 for (size_t i = 0; i < n; ++i)
                     area.flat(i) = s["A"][i].as_double();
             std::string threw;
-            std::unique_ptr<fs::spl_eroder<fg_t>> er;
-            try
+            std::shared_ptr<fs::spl_eroder<fg_t>> er;
+            long long eid = s.get_int("eid", -1);
+            if (eid >= 0 && h.eroders.count(eid))
             {
-                if (karr)
-                    er = std::make_unique<fs::spl_eroder<fg_t>>(*h.fg, kv, m_exp, n_exp, tol);
-                else
-                    er = std::make_unique<fs::spl_eroder<fg_t>>(*h.fg, ks, m_exp, n_exp, tol);
+                // the same eroder object serves another step (parameters as at its construction)
+                er = std::static_pointer_cast<fs::spl_eroder<fg_t>>(h.eroders[eid]);
+                o.num("reused", 1);
             }
-            catch (const std::exception& e)
+            else
             {
-                threw = exc_kind(e);
+                try
+                {
+                    if (karr)
+                        er = std::make_shared<fs::spl_eroder<fg_t>>(*h.fg, kv, m_exp, n_exp, tol);
+                    else
+                        er = std::make_shared<fs::spl_eroder<fg_t>>(*h.fg, ks, m_exp, n_exp, tol);
+                }
+                catch (const std::exception& e)
+                {
+                    threw = exc_kind(e);
+                }
+                if (er && eid >= 0)
+                    h.eroders[eid] = er;
             }
             o.str("threw", threw);
             o.num("nlin", (n_exp == 1.0) ? 1 : 0);
